@@ -192,7 +192,7 @@ func vhLower(s string) string {
 // One row whose single blob column spills to overflow pages, through the
 // public API, for payload lengths around each threshold (page size 512:
 // X = 477 local maximum, M = 39 minimum, 508 bytes per overflow page).
-//verif:prop C01,C14
+//verif:prop C01,C14,C20
 //verif:bounds page size 512; payload lengths P in {476,477,478,546,547,985,986,1055,1500}; blob content symbolic, compared at both ends and on either side of every chunk boundary; rowid symbolic
 func VH_C01_overflow_row() {
 	lengths := [...]int{476, 477, 478, 546, 547, 985, 986, 1055, 1500}
